@@ -6,7 +6,7 @@ import os
 import shutil
 import tempfile
 
-from mc import core, pelgen, impl, clidrv, faultio
+from mc import subchunk, core, pelgen, impl, clidrv, faultio
 from mc.core import ChunkResult
 
 PROPERTY = 'C12'
@@ -94,6 +94,8 @@ def plan(tier, seed):
         for kind in F_KINDS:
             ch.append({'k': 'pairs', 'scen': {'mode': 'f', 'second': kind, 'K': 1024}, 'part': 0, 'parts': 1})
     ch.append({'k': 'subproc'})
+    # the same under python -O (assertions stripped, __debug__ false)
+    ch += [dict(c, optimize=True) for c in [c for c in ch if c['k'] == 'single' and c['scen']['K'] == CHUNKS[0] and not c['scen'].get('stdout')][:24]]
     return ch
 
 
@@ -298,6 +300,9 @@ def _do(res, case, step=211):
 
 
 def run_chunk(chunk):
+    routed = subchunk.route(__name__, chunk)
+    if routed is not None:
+        return routed
     res = ChunkResult()
     impl.ensure(False)
     k = chunk['k']
